@@ -3,6 +3,7 @@ package dptc
 import (
 	"bytes"
 	"fmt"
+	"math/bits"
 	"reflect"
 	"testing"
 
@@ -15,6 +16,35 @@ import (
 type c06Plan struct {
 	Type string `json:"type"`
 	Hex  string `json:"hex"`
+	// Before: a payload decoded into the same variable first (applications decode every telegram of a group address
+	// into one variable); what Hex decodes to must not depend on it
+	Before string `json:"before,omitempty"`
+}
+
+// c06History: used holds whatever the decode of `before` left in it; decoding p into it must give what decoding p
+// into a zero value gives, value and re-encoding alike.
+func c06History(ti typeInfo, used, fresh dpt.Datapoint, before, p []byte) *common.Fail {
+	_ = used.Unpack(before)
+	deref(fresh).Set(reflect.Zero(deref(fresh).Type()))
+	errU, errF := used.Unpack(p), fresh.Unpack(p)
+	if (errU == nil) != (errF == nil) {
+		return common.Failf("history-dependent", "%s: payload %x decoded into a variable that held the decode of %x: %v; decoded into a zero value: %v", ti.Name, p, before, errU, errF)
+	}
+	if errF != nil {
+		return nil
+	}
+	if !sameDP(used, fresh) || !bytes.Equal(used.Pack(), fresh.Pack()) {
+		return common.Failf("history-dependent", "%s: payload %x decodes to %s (re-encoded %x) in a variable that held the decode of %x before, but to %s (re-encoded %x) in a zero value",
+			ti.Name, p, showDP(used), used.Pack(), before, showDP(fresh), fresh.Pack())
+	}
+	return nil
+}
+
+func popcount(p []byte) (n int) {
+	for _, b := range p {
+		n += bits.OnesCount8(b)
+	}
+	return
 }
 
 // canon is the payload an exact format must re-encode to: the original with the bits the format
@@ -113,6 +143,9 @@ func c06Run(p c06Plan) *common.Fail {
 	if !found {
 		return common.Failf("type-missing", "type %q is not registered", p.Type)
 	}
+	if p.Before != "" {
+		return c06History(ti, produce(ti.Name), produce(ti.Name), unhx(p.Before), unhx(p.Hex))
+	}
 	_, f := c06Check(ti, produce(ti.Name), produce(ti.Name), unhx(p.Hex))
 	return f
 }
@@ -154,7 +187,9 @@ func TestC06(t *testing.T) {
 	for _, ti := range types {
 		ti := ti
 		a, b := produce(ti.Name), produce(ti.Name)
-		var evals, acc int64
+		used, fresh := produce(ti.Name), produce(ti.Name)
+		var dirtiest []byte // the accepted payload with the most bits set so far
+		var evals, acc, hist int64
 		try := func(p []byte) {
 			evals++
 			ok, f := func() (ok bool, f *common.Fail) {
@@ -167,6 +202,18 @@ func TestC06(t *testing.T) {
 			}()
 			if ok {
 				acc++
+				if dirtiest == nil || popcount(p) >= popcount(dirtiest) {
+					dirtiest = append(dirtiest[:0], p...)
+				}
+			}
+			if f == nil && dirtiest != nil && (ti.WireL <= 2 || evals%5 == 0) {
+				hist++
+				if f = c06History(ti, used, fresh, dirtiest, p); f != nil && !stop[ti.Name+f.Kind] {
+					if common.Report(t, rec, f, c06Plan{Type: ti.Name, Hex: hx(p), Before: hx(dirtiest)}) {
+						stop[ti.Name+f.Kind] = true
+					}
+				}
+				f = nil
 			}
 			if f != nil && !stop[ti.Name+f.Kind] {
 				if common.Report(t, rec, f, c06Plan{Type: ti.Name, Hex: hx(p)}) {
@@ -270,6 +317,7 @@ func TestC06(t *testing.T) {
 		rec.NonTrivialEnum(acc)
 		rec.ClassN(fmt.Sprintf("enum-main%d-accepted", ti.Main), acc)
 		rec.ClassN(fmt.Sprintf("enum-main%d-rejected", ti.Main), evals-acc)
+		rec.ClassN("enum-decoded-into-used-variable", hist)
 	}
 	rec.Exhaustive("all 256 payloads of every 1-byte type; all 2^16 payloads (leading byte included) of every 2-byte type; all 2^16 value encodings of every 3-byte type (all twenty 9.xxx included) under leading bytes 00/ff/a5")
 	if thorough {
@@ -358,6 +406,19 @@ func TestC06(t *testing.T) {
 			p[0] = 0
 		}
 		plan := c06Plan{Type: ti.Name, Hex: hx(p)}
+		if rapid.IntRange(0, 2).Draw(rt, "used-variable") == 0 {
+			q := make([]byte, len(p))
+			if ti.WireL <= 0 {
+				q = make([]byte, rapid.IntRange(2, 40).Draw(rt, "before-len"))
+			}
+			for i := range q {
+				q[i] = rapid.SampledFrom([]byte{0xff, 0xff, 0x7f, 0x3f, 0x0f, 0x03, 0x01, 0x41}).Draw(rt, "before-byte")
+			}
+			if len(q) > 0 {
+				q[0] = 0
+				plan.Before = hx(q)
+			}
+		}
 		d := produce(ti.Name)
 		if d != nil && d.Unpack(p) == nil {
 			rec.NonTrivial(common.Hash64([]byte(ti.Name), p))
